@@ -118,6 +118,20 @@ def _call_form(case, form, tag):
     pos = [num(a[n]) for n in names if n not in case["in"]["defaulted"]]
     kw = {n: num(a[n]) for n in names if n in case["in"]["defaulted"]}
     kw.update(bkw)
+    if form in ("array-args", "array-args-native"):
+        def arr(q):
+            if form == "array-args-native" and q.denominator == 1:
+                return np.array([int(q), int(q)])
+            return np.array([float(q), float(q)])
+        objs = [arr(a[n]) for n in names if n not in case["in"]["defaulted"]]
+        before = [o.tolist() for o in objs]
+        rows = []
+        for call in ("call1", "call2"):          # the same argument objects are handed over twice
+            out = _as_tuple(fn(float(tq), *objs, **kw))
+            cols = [np.broadcast_to(np.asarray(o), (2,)) for o in out]
+            rows += [(call + "[0]", "at-t", tuple(col[0] for col in cols)), (call + "[1]", "at-t", tuple(col[1] for col in cols))]
+        rows.append(("frame", before, [o.tolist() for o in objs]))
+        return rows
     if form == "array-t":
         tarr = np.array([float(terms.to_fraction(x)) for x in case["in"]["tarray"]])
         before = tarr.tolist()
